@@ -35,6 +35,13 @@ ARMS = {
     "line_segment_to_line_segment": [10, 11, 12, 20, 21, 22],
     "line_to_plane": [0], "line_segment_to_plane": [0, 1, 2, 3], "plane_to_plane": [0],
     "plane_to_triangle": [0, 1], "plane_to_rectangle": [0, 1], "plane_to_box": [0, 1],
+    # combinators (Model/DistPrimComb.v)
+    "line_to_triangle": [0, 1], "line_segment_to_triangle": [0, 1, 2], "triangle_to_triangle": [0],
+    "line_to_rectangle": [0, 1], "line_segment_to_rectangle": [0, 1, 2], "triangle_to_rectangle": [0],
+    "rectangle_to_rectangle": [0], "rectangle_to_box": [0, 1],
+    "plane_to_ellipsoid": [0, 1], "plane_to_cylinder": [0, 1],
+    # iterative functions (Model/DistPrimIter.v): the tag is an iteration count, not an arm (None = not tracked)
+    "point_to_ellipsoid": None, "disk_to_disk": None,
 }
 OUT_OF_DOMAIN_ARMS = {
     "line_to_line_segment": [0, 1, 2], "line_segment_to_line_segment": [0, 1, 2],
@@ -42,7 +49,7 @@ OUT_OF_DOMAIN_ARMS = {
 MODELLED = list(ARMS)
 
 HEADER = """From Coq Require Import List PrimFloat.
-From D3 Require Import Base.Ops Base.Vec Model.DistPrimRun.
+From D3 Require Import Base.Ops Base.Vec Model.DistPrimRun Model.DistPrimCombRun Model.DistPrimIterRun.
 Import ListNotations.
 Open Scope float_scope.
 """
@@ -80,11 +87,18 @@ def prim_expr(p):
         return f"{pose(p['pose'])} {v(p['size'])}"
     if k == "cylinder":
         return f"{pose(p['pose'])} {fx(p['r'])} {fx(p['l'])}"
+    if k == "ellipsoid":
+        return f"{pose(p['pose'])} {v(p['radii'])}"
     raise KeyError(k)
 
 
 EPS_ARG = {"point_to_circle", "line_to_line", "line_to_line_segment", "line_segment_to_line_segment",
-           "line_to_plane", "line_segment_to_plane", "plane_to_plane"}
+           "line_to_plane", "line_segment_to_plane", "plane_to_plane",
+           "line_to_triangle", "line_segment_to_triangle", "triangle_to_triangle", "line_to_rectangle",
+           "line_segment_to_rectangle", "rectangle_to_rectangle", "rectangle_to_box"}
+
+
+OTHER_EPS = {"point_to_ellipsoid": 1e-16, "disk_to_disk": 1e-8}     # the functions' default epsilon arguments
 
 
 def model_expr(case):
@@ -92,6 +106,8 @@ def model_expr(case):
     e = f"r_{fn} {prim_expr(case['A'])} {prim_expr(case['B'])}"
     if fn in EPS_ARG:
         e += " " + fx(EPS6)
+    elif fn in OTHER_EPS:
+        e += " " + fx(OTHER_EPS[fn])
     return e
 
 
@@ -204,6 +220,9 @@ def correspondence(R, pid, cases, results, tier):
     cov = {}
     holes = {}
     for fn in ARMS:
+        if ARMS[fn] is None:
+            cov[fn] = {"tags (iteration counts)": len(arms[fn])}
+            continue
         cov[fn] = {str(a): arms[fn].get(a, 0) for a in ARMS[fn] + OUT_OF_DOMAIN_ARMS.get(fn, [])}
         h = [a for a in ARMS[fn] if not arms[fn].get(a)]
         if h:
